@@ -949,11 +949,15 @@ class Extractor:
 
     def inline_effectful(self, c, p: Path, bound):
         """call to a nested (closure) function: -> list of (path, return term) or None."""
-        if not (isinstance(c, ast.Call) and isinstance(c.func, ast.Name) and c.func.id in self.local_defs):
+        eff = getattr(self, 'eff_inline', {})
+        if not (isinstance(c, ast.Call) and isinstance(c.func, ast.Name)
+                and (c.func.id in self.local_defs or c.func.id in eff)):
             return None
         if self.depth >= 4:
             raise Unsupported('nested inlining depth')
-        fd = self.local_defs[c.func.id]
+        fd = self.local_defs.get(c.func.id) or eff[c.func.id]
+        if fd is self.fnode:
+            return None
         names = [x.arg for x in fd.args.posonlyargs + fd.args.args]
         b2 = dict(bound)
         # closure: the nested function sees the enclosing locals - except the names it binds itself
@@ -967,6 +971,7 @@ class Extractor:
             b2[nm] = self.expr(a, p, bound)
         sub = Extractor(fd, self.inline, strip_copies=self.strip_copies)
         sub._parent = self
+        sub.eff_inline = eff
         sub.params = self.params            # free names that are parameters of the outer function
         sub.depth = self.depth + 1
         sub.local_defs = dict(self.local_defs)
@@ -1385,8 +1390,9 @@ def _sort_effects(effs):
     return tuple(out)
 
 
-def table_of(fnode, inline=None, strip_copies=False):
+def table_of(fnode, inline=None, strip_copies=False, effectful=None):
     ex = Extractor(fnode, inline, strip_copies=strip_copies)
+    ex.eff_inline = dict(effectful or {})
     paths = ex.run()
     return canonical_table(paths)
 
